@@ -43,8 +43,8 @@ func consumeSingleTURNFrame(b []byte) (int, error) {
 	// Sizes are computed as int: a 16-bit length plus header and padding does not fit in uint16.
 	var datagramSize int
 	switch {
-	case stun.IsMessage(b):
-		datagramSize = int(binary.BigEndian.Uint16(b[2:4])) + stunHeaderSize
+	// The channel number is tested first: the first two bits of a ChannelData frame are 01 and
+	// those of a STUN message 00, whereas a ChannelData payload may well begin with the magic cookie.
 	case ChannelNumber(binary.BigEndian.Uint16(b[0:2])).Valid():
 		datagramSize = int(binary.BigEndian.Uint16(b[channelDataNumberSize:channelDataHeaderSize]))
 		if paddingOverflow := (datagramSize + channelDataPadding) % channelDataPadding; paddingOverflow != 0 {
@@ -52,6 +52,8 @@ func consumeSingleTURNFrame(b []byte) (int, error) {
 		}
 
 		datagramSize += channelDataHeaderSize
+	case stun.IsMessage(b):
+		datagramSize = int(binary.BigEndian.Uint16(b[2:4])) + stunHeaderSize
 	case len(b) < stunHeaderSize:
 		return 0, errIncompleteTURNFrame
 	default:
